@@ -562,6 +562,19 @@ impl<'a, 'tcx> Visitor<'tcx> for BV<'a, 'tcx> {
                     );
                     self.push(loc.block, s);
                 }
+                // aggregates (Some(x), tuples, struct literals): the result is derived from each operand
+                if let Rvalue::Aggregate(_, ops) = rv {
+                    for op in ops.iter() {
+                        if let Operand::Copy(p) | Operand::Move(p) = op {
+                            let s = format!(
+                                "[\"mv\",\"_{}\",{}]",
+                                place.local.as_usize(),
+                                esc(&self.place_str(p))
+                            );
+                            self.push(loc.block, s);
+                        }
+                    }
+                }
             }
         }
         self.super_statement(st, loc);
